@@ -240,6 +240,15 @@ def describe(tier, seed):
             "Evm is checked as the same quadratic norm applied to the strain result (no documented definition)",
             "shape-function gradients at Gauss points (Get_dN_e_pg), Gauss weights and beam element operators (Get_beam_B_e_pg) are taken from the "
             "implementation (subjects of C06/C07); material stiffness C from the model (subject of C11)",
+            "PhaseField: psiP is the history field max(psi+, 0) of the default History solver; for splits other than Bourdin sigma+/-, psi+ come from "
+            "the model (subject of C17), the degradation g(d) and the Gauss-point reduction are recomputed here; damage is a generic field in [0, 0.9)",
+            "InElastic: generic states lie inside the elastic domain (yield stress above the stresses of the state) so that the stress of a total strain "
+            "at the committed state is defined; variant vm_step first solves and commits a plastic load step (p > 0, eps_p != 0)",
+            "HyperElastic: generic displacement amplitude 0.05 x smallest node spacing so that det F > 0.05 (cases violating it are skipped and counted); closed forms for "
+            "Saint-Venant-Kirchhoff and Neo-Hookean, model derivatives for Mooney-Rivlin",
+            "Beam 2D/3D stress values are not modelled (only Sij <-> column of 'Stress' and the 1D relation Sxx = N/A)",
+            "reaction cases: static solves with all dofs of a boundary part prescribed to zero; applied resultant = total of add_neumann (exact by "
+            "definition) or the assembled Neumann vector for body loads (their integration is C09's subject)",
             f"tolerance {TOL:g} relative to the magnitude of the field the result derives from",
         ],
         "explanation": "A result wired to the wrong vector, the wrong column or the wrong Kelvin-Mandel factor changes a value that is "
@@ -668,10 +677,16 @@ def build_HyperElastic(case, mesh):
     if dyn:
         simu.Solver_Set_Hyperbolic_Algorithm(0.1)
     Nn = mesh.Nn
-    u, v, a = state_vectors(case, Nn * dim, 0.012)
+    groups = mesh.Get_list_groupElem()
+    # finite strains of order 0.1-0.3 with det F > 0: amplitude relative to the smallest node spacing of the mesh
+    hmin = np.inf
+    for g in groups:
+        X = np.asarray(mesh.coord)[np.asarray(g.connect, dtype=int)]
+        D = np.linalg.norm(X[:, :, None, :] - X[:, None, :, :], axis=-1) + 1e9 * np.eye(X.shape[1])
+        hmin = min(hmin, float(D.min()))
+    u, v, a = state_vectors(case, Nn * dim, 0.05 * hmin)
     simu._Set_solutions(simu.problemType, u, v, a)
     simu.Need_Update()
-    groups = mesh.Get_list_groupElem()
     table = {}
     comp = ["x", "y", "z"][:dim]
     U = u.reshape(Nn, dim)
@@ -889,9 +904,7 @@ def _key(case):
     k = {"sim": case["sim"], "dim": case["dim"], "mesh": case["mesh"]["id"]}
     if "variant" in case:
         k["variant"] = case["variant"]
-    if "state" in case:
-        k["state"] = case["state"]
-    return k
+    return k  # the state index is deliberately not part of the key: the three states exercise the same wiring
 
 
 def _run_results(case):
@@ -950,8 +963,9 @@ def _run_results(case):
             if spec.layouts and arr.ndim == 2 and arr.shape[1] in spec.layouts and arr.shape[1] != exp.shape[-1]:
                 alt = Spec(spec.loc, spec.layouts[arr.shape[1]], spec.scale)
                 exp, mask = expected(alt, nv, groups, Nn, Ne)
-            size = spec.val.size
-            collision = (spec.loc == "elem" and nv and size % Nn == 0) or (spec.loc == "node" and not nv and size % Ne == 0)
+            # sizes the implementation may have handed to Results_Reshape_values (alternative column layouts included)
+            sizes = [spec.val.size] + [int(np.asarray(a).size) for a in (spec.layouts or {}).values()]
+            collision = any((spec.loc == "elem" and nv and sz % Nn == 0) or (spec.loc == "node" and not nv and sz % Ne == 0) for sz in sizes)
             bad = None
             if arr.shape != exp.shape:
                 bad = f"shape {arr.shape}, expected {exp.shape}"
